@@ -362,18 +362,37 @@ def lean_sources():
     return sorted(res)
 
 
-def forbidden_scan():
+def import_closure(module):
+    """Files of this project that `module` (e.g. Edn.Properties.C12) transitively imports."""
+    seen, todo, files = set(), [module], []
+    while todo:
+        m = todo.pop()
+        if m in seen or not m.startswith("Edn"):
+            continue
+        seen.add(m)
+        path = os.path.join(LEAN_DIR, *m.split(".")) + ".lean"
+        if not os.path.exists(path):
+            continue
+        files.append(path)
+        for line in strip_lean_comments(open(path).read()).split("\n"):
+            line = line.strip()
+            if line.startswith("import "):
+                todo.extend(line.split()[1:])
+    return sorted(files)
+
+
+def forbidden_scan(module=None):
     hits = []
-    for p in lean_sources():
+    files = import_closure(module) if module else lean_sources()
+    for p in files:
         src = strip_lean_comments(open(p).read())
         for tok in FORBIDDEN_TOKENS:
             if tok == "axiom ":
                 for line in src.split("\n"):
-                    if line.startswith("axiom ") or " axiom " in (" " + line.split(":")[0]) and line.strip().startswith("axiom"):
+                    if line.strip().startswith("axiom "):
                         hits.append((os.path.relpath(p, LEAN_DIR), "axiom"))
                 continue
             if tok in src:
-                # 'unsafe ' inside identifiers is unlikely; report as is
                 hits.append((os.path.relpath(p, LEAN_DIR), tok.strip()))
     return hits
 
@@ -413,7 +432,7 @@ def lean_obligations(pid):
         # which theorems fail? Try to name them from the error output
         res["build_log"] = out[-8000:]
         return res
-    for path, tok in forbidden_scan():
+    for path, tok in forbidden_scan("Edn.Properties." + pid):
         res["failures"].append("forbidden token '%s' in %s" % (tok, path))
     audit = os.path.join(build_dir(), "Audit_%s.lean" % pid)
     with open(audit, "w") as fh:
